@@ -349,6 +349,15 @@ type srvRun struct {
 // hangAfter, and a plain error when the server has taken every byte, passes no
 // schedule point any more and still owes replies (they can never come).
 func (r *srvRun) next(what string) ([]byte, error) {
+	return r.nextOwed(what, func() string {
+		return fmt.Sprintf("%d of %d requests were answered (not answered, leaving aside requests the implementation still holds:%s)", len(r.replies), len(r.b.preds), r.missing())
+	})
+}
+
+// nextOwed is next with the description of what the server still owes supplied
+// by the caller (the measured stream, or the preparation requests before it:
+// they travel on the same connection and through the same receive buffer).
+func (r *srvRun) nextOwed(what string, owed func() string) ([]byte, error) {
 	start := time.Now()
 	idle, lastEv := 0, int64(-1)
 	for {
@@ -357,7 +366,7 @@ func (r *srvRun) next(what string) ([]byte, error) {
 			return f, nil
 		}
 		if err != rawc.ErrTimeout {
-			return nil, fmt.Errorf("%s: the server ended the connection (%v) after %d of %d replies", what, err, len(r.replies), len(r.b.preds))
+			return nil, fmt.Errorf("%s: the server ended the connection (%v): %s", what, err, owed())
 		}
 		ev := r.ctl.points.Load()
 		if ev == lastEv {
@@ -380,15 +389,15 @@ func (r *srvRun) next(what string) ([]byte, error) {
 				return f, nil
 			}
 			if err != rawc.ErrTimeout {
-				return nil, fmt.Errorf("%s: the server ended the connection (%v) after %d of %d replies", what, err, len(r.replies), len(r.b.preds))
+				return nil, fmt.Errorf("%s: the server ended the connection (%v): %s", what, err, owed())
 			}
 			if st == "gone" {
-				return nil, fmt.Errorf("%s: the server's receive loop has ended with %d bytes of the stream unread and without the transport being closed; %d of %d requests were answered (not answered, leaving aside requests the implementation still holds:%s); every goroutine of the library is blocked", what, r.unread(), len(r.replies), len(r.b.preds), r.missing())
+				return nil, fmt.Errorf("%s: the server's receive loop has ended with %d bytes of the stream unread and without the transport being closed; %s; every goroutine of the library is blocked", what, r.unread(), owed())
 			}
-			return nil, fmt.Errorf("%s: the server has read the whole stream and is idle, but only %d of %d requests were answered (not answered, leaving aside requests the implementation still holds:%s); every goroutine of the library is blocked and its receive loop waits for more bytes", what, len(r.replies), len(r.b.preds), r.missing())
+			return nil, fmt.Errorf("%s: the server has read the whole stream and is idle, but %s; every goroutine of the library is blocked and its receive loop waits for more bytes", what, owed())
 		}
 		if time.Since(start) > hangAfter {
-			return nil, hangErr(fmt.Sprintf("%s: %d of %d replies after %v", what, len(r.replies), len(r.b.preds), hangAfter))
+			return nil, hangErr(fmt.Sprintf("%s: %s after %v", what, owed(), hangAfter))
 		}
 	}
 }
@@ -451,12 +460,14 @@ func (r *srvRun) batch(ms []*ref9p.Msg) error {
 		}
 	}
 	for len(want) > 0 {
-		f, err := r.cl.RecvRaw(hangAfter)
+		// decided like a reply of the measured stream: a preparation request
+		// that the idle server (whole stream taken, every goroutine parked) has
+		// not answered can never be answered
+		f, err := r.nextOwed("prologue (one request per chunk)", func() string {
+			return fmt.Sprintf("%d of the %d preparation requests just sent are unanswered", len(want), len(ms))
+		})
 		if err != nil {
-			if err == rawc.ErrTimeout {
-				return hangErr(fmt.Sprintf("prologue: %d preparation requests unanswered", len(want)))
-			}
-			return fmt.Errorf("prologue: %v", err)
+			return err
 		}
 		m, _, derr := ref9p.Decode(f, r.c.Dotu)
 		if derr != nil || want[m.Tag] != m.Type {
